@@ -50,7 +50,7 @@ def run(chk):
         execs.setdefault(name, []).append((blk, cl))
         pool = describe(prog, b, t["args"][0])
         chk.ob("R6.single_queue", fn, f"dispatch of {name} goes through self.thread_pool", desc_contains(pool, lambda y: y[0] == "field" and y[2] == ix["thread_pool"]), "", where=b.where(blk))
-    for n, fl in (("on_message", 1), ("on_connect", 1), ("on_disconnect", 2)):
+    for n, fl in (("on_message", 1), ("on_connect", 1), ("on_disconnect", 1)):
         chk.floor(f"dispatch sites for {n}", len(execs.get(n, [])), fl)
     unset = {}   # handler name -> edges where the Option<handler> is None
     for s in range(len(b.blocks)):
@@ -89,7 +89,7 @@ def run(chk):
         for blk, t2 in b.calls_to(r"HashMap::<K, V, S, A>::remove$"):
             if on_streams(describe(prog, b, t2["args"][0])) and key is not None and panics._strip(describe(prog, b, t2["args"][1])) == panics._strip(key):
                 removes.append(blk)
-        chk.floor("streams.remove(addr) sites", len(removes), 2)
+        chk.floor("streams.remove(addr) sites", len(removes), 1)
         for (s, tgt) in some_edge_of(prog, b, rb, "Err"):
             w = core.must_pass(b, [tgt], recvs, through_nodes=removes, after_from=False)
             chk.ob("R2.disconnect", fn, "receive error -> the stream is removed before any further poll", w is None,
